@@ -69,6 +69,14 @@ def generate(outdir):
     return allf
 
 
+def count_functions():
+    return len(spec.UTIL_FUNCS) + len(spec.MODEL_FUNCS) + len(spec.CONTROLLER_FUNCS)
+
+
+def count_tables():
+    return 0
+
+
 if __name__ == '__main__':
     if sys.argv[1] == '--schema':
         open(sys.argv[2], 'w').write(schema_text())
